@@ -765,8 +765,14 @@ def r12_10(ctx, counts: dict[str, int]) -> RuleResult:
         while isinstance(st, ast.If):
             yield st.test
             st = st.orelse[0] if len(st.orelse) == 1 else None
+    # the escape character itself, or a local it has been read into
+    subj = {'pattern[pos]'} | {
+        t.id for st in branch.body if isinstance(st, (ast.Assign, ast.AnnAssign))
+        and st.value is not None and any(stmt_text(y) == 'pattern[pos]' for y in ast.walk(st.value))
+        for t in (st.targets if isinstance(st, ast.Assign) else [st.target])
+        if isinstance(t, ast.Name)}
     chain = [st for st in branch.body if isinstance(st, ast.If) and any(
-        stmt_text(y) == 'pattern[pos]' for t in chain_tests(st) for y in ast.walk(t))
+        stmt_text(y) in subj for t in chain_tests(st) for y in ast.walk(t))
         and not any(isinstance(x, ast.While) for x in st.body)]
     if not chain:
         raise AnalysisError('translate_pattern: the escape dispatch chain was not located')
@@ -782,7 +788,7 @@ def r12_10(ctx, counts: dict[str, int]) -> RuleResult:
             return e.value
         if isinstance(e, ast.Tuple):
             return tuple(ev(x, c) for x in e.elts)
-        if stmt_text(e) == 'pattern[pos]':
+        if stmt_text(e) in subj:
             return c
         if isinstance(e, ast.Name) and e.id in consts:
             return consts[e.id]
@@ -822,7 +828,7 @@ def r12_10(ctx, counts: dict[str, int]) -> RuleResult:
                 isinstance(x, ast.Try) for b in body for x in ast.walk(b)):
             return 'rejected'
         if any(isinstance(x, ast.BinOp) and isinstance(x.op, ast.Mod)
-               and stmt_text(x.right) == 'pattern[pos]' for b in body for x in ast.walk(b)) \
+               and stmt_text(x.right) in subj for b in body for x in ast.walk(b)) \
                 and len(body) == 1:
             return 'passed'
         return 'translated'
